@@ -731,7 +731,7 @@ fn main() {
         let nloops = st.whiles + st.untils + st.loops;
         let sz = st_size(prog);
         rep.case(req, nloops >= 1 && sz >= 6);
-        rep.bump(&format!("stmt_size={}", (sz / 10) * 10));
+        rep.bump(&format!("stmt_size={}", if sz >= 200 { 200 } else { (sz / 20) * 20 }));
         rep.bump(&format!("stmt_loops={}", nloops.min(6)));
         rep.bump(&format!("stmt_loop_depth={}", st.max_loop_depth));
         rep.bump_by("stmt_kind=while", st.whiles as u64);
